@@ -154,7 +154,7 @@ func genProfile(rng *rand.Rand, c *config) *profile {
 			p.slow |= 1 << uint(i)
 		}
 	}
-	p.budget = c.heights * (40 + 12*c.n*c.n) * (1 + rng.IntN(2))
+	p.budget = c.heights * (30 + 8*c.n*c.n) * (1 + rng.IntN(2))
 	return p
 }
 
@@ -357,8 +357,12 @@ func (s *sim) byzRandom(p *profile) {
 			}
 			return msg{kind: kProposal, from: int8(b), h: h, r: r, val: val, vr: vr}
 		}
-		s.byzEmit(mk(), in)
-		if len(out) > 0 && s.rng.IntN(3) == 0 {
+		pm := mk()
+		if old, ok := s.byzProps[[2]int64{int64(h), int64(r)}]; ok && s.consistentProposer && int(old.from) == b {
+			pm = old
+		}
+		s.byzEmit(pm, in)
+		if len(out) > 0 && s.rng.IntN(3) == 0 && !s.consistentProposer {
 			s.st.byzEquiv++
 			s.byzEmit(mk(), out)
 		}
